@@ -915,9 +915,14 @@ func buildScalarType(src protoreflect.FieldDescriptor, ext protoFieldExtensions)
 
 	case protoreflect.BytesKind:
 
+		bytesRules := &schema_j5pb.BytesField_Rules{}
+		if bytesConstraint := ext.validate.GetBytes(); bytesConstraint != nil {
+			bytesRules.MinLength = bytesConstraint.MinLen
+			bytesRules.MaxLength = bytesConstraint.MaxLen
+		}
 		return &schema_j5pb.Field_Bytes{
 			Bytes: &schema_j5pb.BytesField{
-				Rules: &schema_j5pb.BytesField_Rules{},
+				Rules: bytesRules,
 			},
 		}, nil
 
